@@ -158,25 +158,35 @@ def main():
     out = []
     texts = {}
     want_text = set(map(tuple, job.get("want_text", [])))
+    renamed = False
     for opi, op in enumerate(job["ops"]):
         kind, ci = op[0], op[1]
         if ci >= len(classes):
             continue
         c = classes[ci]
+        if kind == "rn":
+            # a class is renamed in the middle of the history; what is observed from here on is compared separately
+            # (targets "M" / "C"), and must not depend on what was decompiled before the rename
+            try:
+                c.set_name(op[2])
+            except Exception:
+                pass
+            renamed = True
+            continue
         try:
             if kind in ("ms", "ma"):
                 ms = list(c.get_methods())
                 if op[2] >= len(ms):
                     continue
                 m = ms[op[2]]
-                tgt = ("m", ci, op[2])
+                tgt = ("M" if renamed else "m", ci, op[2])
                 if kind == "ms":
                     text = dad.get_source_method(m)
                 else:
                     dad.get_ast_method(m)
                     text = None
             else:
-                tgt = ("c", ci, -1)
+                tgt = ("C" if renamed else "c", ci, -1)
                 if kind == "cs":
                     text = dad.get_source_class(c)
                 else:
